@@ -5,9 +5,81 @@ package main
 import (
 	"bytes"
 	"fmt"
+	"io"
+	"time"
 
+	"github.com/google/pprof/internal/driver"
+	"github.com/google/pprof/internal/plugin"
 	"github.com/google/pprof/profile"
 )
+
+// ---- driver-level round trip: pprof -proto output re-read ----
+type c01Fetch struct{ p *profile.Profile }
+
+func (f c01Fetch) Fetch(string, time.Duration, time.Duration) (*profile.Profile, string, error) {
+	return f.p, "", nil
+}
+
+type c01Writer struct{ bufs []*c01WC }
+type c01WC struct{ bytes.Buffer }
+
+func (*c01WC) Close() error { return nil }
+func (w *c01Writer) Open(string) (io.WriteCloser, error) {
+	b := &c01WC{}
+	w.bufs = append(w.bufs, b)
+	return b, nil
+}
+
+// c01FrameView: per sample its values, labels and expanded frames (leaf first): what a reader of the
+// profile sees, independent of ids and of unused table entries.
+func c01FrameView(p *profile.Profile) Term {
+	var ss []Term
+	for _, s := range p.Sample {
+		var frames []Term
+		for _, l := range s.Location {
+			var mfile string
+			if l.Mapping != nil {
+				mfile = l.Mapping.File
+			}
+			var lines []Term
+			for _, ln := range l.Line {
+				if ln.Function == nil {
+					lines = append(lines, L(S("<nil>")))
+					continue
+				}
+				lines = append(lines, L(S(ln.Function.Name), S(ln.Function.SystemName), S(ln.Function.Filename), Z(ln.Function.StartLine), Z(ln.Line), Z(ln.Column)))
+			}
+			frames = append(frames, L(ZU(l.Address), S(mfile), Bool(l.IsFolded), L(lines...)))
+		}
+		d := DumpSample(s).(tL).l
+		ss = append(ss, L(L(frames...), d[1], d[2], d[3], d[4]))
+	}
+	return L(ss...)
+}
+
+func c01DriverProto(p *profile.Profile) (out Term) {
+	defer func() {
+		if r := recover(); r != nil {
+			out = L(S("panic"), S(fmt.Sprint(r)))
+		}
+	}()
+	w := &c01Writer{}
+	o := &plugin.Options{
+		Flagset: newC09Flags([]string{"-proto", "-symbolize=none", "-output=out.pb", "src"}),
+		Fetch:   c01Fetch{p.Copy()}, Sym: c09Sym{}, Obj: &c09Obj{}, UI: &c09UI{}, Writer: w,
+	}
+	if err := driver.PProf(o); err != nil {
+		return L(S("err"), S(err.Error()))
+	}
+	if len(w.bufs) == 0 {
+		return L(S("no-output"))
+	}
+	q, err := profile.ParseData(w.bufs[len(w.bufs)-1].Bytes())
+	if err != nil {
+		return L(S("reparse-err"), S(err.Error()))
+	}
+	return L(S("ok"), c01FrameView(q))
+}
 
 func init() {
 	registry["C01"] = runC01
@@ -253,6 +325,53 @@ func runC01(c *Ctx) {
 			c.Case("gen", L(S("parse"), S(string(b))), c01ParseObs(b), nontriv(p), "op:parse", "parse:valid-encoding")
 			rtCase("gen", p, nontriv(p))
 		}
+	}
+	// 1b. histories on ONE profile object: write/copy (or parse) leaves the encoder's scratch fields
+	// populated; labels are then removed or replaced and the profile is written again
+	for i := 0; i < c.Budget(150, 6000); i++ {
+		p := GenProfile(r, c01Knobs(r))
+		if p.CheckValid() != nil {
+			continue
+		}
+		b1, pan := c01Serialize(p)
+		if pan {
+			continue
+		}
+		if r.Bool() {
+			if q, err := profile.ParseUncompressed(b1); err == nil {
+				p = q
+			}
+		} else if r.Bool() {
+			_ = p.Copy()
+		}
+		for _, s := range p.Sample {
+			switch r.Intn(4) {
+			case 0:
+				s.Label, s.NumLabel, s.NumUnit = nil, nil, nil
+			case 1:
+				s.Label = map[string][]string{"fresh": {"x" + fmt.Sprint(i)}}
+			case 2:
+				s.NumLabel, s.NumUnit = map[string][]int64{"n": {int64(i) + 1}}, nil
+			}
+		}
+		if b := serCase("history", p, true, "history:labels-edited-after-write"); b != nil {
+			rtCase("history", p, true)
+		}
+	}
+	// 1c. pprof -proto through the driver, re-read: every sample keeps its frames (names, files, lines,
+	// columns, addresses), values and labels
+	for i := 0; i < c.Budget(120, 4000); i++ {
+		k := c01Knobs(r)
+		k.Header = false
+		k.MinSampleTypes = 1
+		p := GenProfile(r, k)
+		if p.CheckValid() != nil || len(p.Sample) == 0 {
+			continue
+		}
+		for j, st := range p.SampleType { // the driver wants distinct sample type names
+			st.Type = fmt.Sprintf("%s%d", st.Type, j)
+		}
+		c.Case("driver-proto", L(S("driverproto"), DumpProfile(p)), c01DriverProto(p), true, "op:driverproto")
 	}
 	// 2. list lengths around the packed switch, extreme values, huge ids (exhaustive lengths 0..5)
 	for nloc := 0; nloc <= 5; nloc++ {
